@@ -72,6 +72,8 @@ pub enum Op {
     Deallocate(usize, usize, bool),
     Truncate(usize),
     WriterAllocate(usize, usize, bool),
+    /// `BinArchiveWriter::allocate_at_end` with the cursor at the given position
+    WriterAllocateAtEnd(usize, usize),
     WriteString(usize, String),
     WritePointer(usize, usize),
     WriteCString(usize, String),
@@ -90,6 +92,7 @@ impl Op {
             Op::Deallocate(..) => "deallocate",
             Op::Truncate(..) => "truncate",
             Op::WriterAllocate(..) => "writer.allocate",
+            Op::WriterAllocateAtEnd(..) => "writer.allocate_at_end",
             Op::WriteString(..) => "write_string",
             Op::WritePointer(..) => "write_pointer",
             Op::WriteCString(..) => "write_c_string",
@@ -101,7 +104,7 @@ impl Op {
         }
     }
     pub fn is_relocation(&self) -> bool {
-        matches!(self, Op::Allocate(..) | Op::AllocateAtEnd(..) | Op::Deallocate(..) | Op::Truncate(..) | Op::WriterAllocate(..))
+        matches!(self, Op::Allocate(..) | Op::AllocateAtEnd(..) | Op::Deallocate(..) | Op::Truncate(..) | Op::WriterAllocate(..) | Op::WriterAllocateAtEnd(..))
     }
 }
 
@@ -115,6 +118,18 @@ pub fn apply_real(a: &mut BinArchive, op: &Op) -> Result<(), String> {
         Op::Deallocate(x, n, ge) => a.deallocate(*x, *n, *ge),
         Op::Truncate(x) => a.truncate(*x),
         Op::WriterAllocate(pos, n, ge) => BinArchiveWriter::new(a, *pos).allocate(*n, *ge),
+        Op::WriterAllocateAtEnd(pos, n) => {
+            let before = a.size();
+            let mut w = BinArchiveWriter::new(a, *pos);
+            if w.size() != before || w.length() != before {
+                return Err(format!("writer.size() = {} / length() = {} on an archive of {} bytes", w.size(), w.length(), before));
+            }
+            w.allocate_at_end(*n);
+            if w.tell() != *pos || w.size() != before + n {
+                return Err(format!("writer.allocate_at_end({}) left the cursor at {} (was {}) and size() = {} (archive was {})", n, w.tell(), pos, w.size(), before));
+            }
+            Ok(())
+        }
         Op::WriteString(x, s) => a.write_string(*x, Some(s)),
         Op::WritePointer(x, t) => a.write_pointer(*x, Some(*t)),
         Op::WriteCString(x, s) => a.write_c_string(*x, s.clone()),
@@ -152,6 +167,10 @@ pub fn apply_model(m: &mut Content, op: &Op) -> Expect {
         }
         Op::Truncate(a) => {
             m.truncate(*a);
+            Expect::Accept
+        }
+        Op::WriterAllocateAtEnd(_, n) => {
+            m.allocate_at_end(*n);
             Expect::Accept
         }
         Op::WriterAllocate(pos, n, ge) => {
@@ -384,6 +403,8 @@ impl System for Sys {
             }
         }
         v.push(Op::WriterAllocate(size, 2, false));
+        v.push(Op::WriterAllocateAtEnd(0, 4));
+        v.push(Op::WriterAllocateAtEnd(size, 3));
         v.push(Op::WriterAllocate(size + 4, 2, true));
         if depth >= self.full_depth {
             return v;
@@ -397,7 +418,8 @@ impl System for Sys {
                 v.push(Op::WriteString(a, "x".into()));
             }
             if !has_s && !has_c {
-                for t in [0usize, a, size] {
+                // aligned and UNALIGNED targets (a target 1..3 bytes behind an insertion address moves too)
+                for t in [0usize, a, size, a + 1, (a + 6).min(size)] {
                     v.push(Op::WritePointer(a, t));
                 }
             }
@@ -558,7 +580,9 @@ pub fn medium_init(n: usize, e: End) -> Content {
     for i in 0..n {
         c.data[4 * i..4 * i + 4].copy_from_slice(&[0; 4]);
         // targets spread over the records, the end address included
-        c.pointers.insert(4 * i, rec_base + ((i * 8) % (recs * 8 + 4)));
+        // every fourth target is unaligned (1..3 bytes into a cell)
+        let t = rec_base + ((i * 8) % (recs * 8 + 4));
+        c.pointers.insert(4 * i, if i % 4 == 3 { (t + 1 + i % 3).min(cells * 4) } else { t });
     }
     for r in 0..recs {
         let a = rec_base + r * 8;
@@ -602,6 +626,47 @@ pub fn medium_search(tier: Tier, o: &mut Outcome, cov: &mut Coverage) {
         }
     }
     cov.extra.insert("medium_archives".into(), json!(per));
+}
+
+/// Scripted histories on archives with THOUSANDS of annotations (a relocation that switches to
+/// another algorithm above some table size shows only here): n string cells over three distinct
+/// strings, a pointer and a label on every 7th / 5th cell, then removals and insertions at the
+/// start, in the middle, right behind another annotation and at the end.
+pub fn many_annotations_script(o: &mut Outcome) -> u64 {
+    let mut done = 0u64;
+    for (n, e) in [(1_499usize, End::Little), (1_500, End::Big), (1_501, End::Little), (2_048, End::Little), (5_000, End::Big)] {
+        let mut c = Content::new(e);
+        c.data = vec![0u8; 4 * n];
+        for i in 0..n {
+            let a = 4 * i;
+            if i % 7 == 3 {
+                c.pointers.insert(a, (a * 3 + 1) % (4 * n + 1));
+            } else {
+                c.strings.insert(a, ["alpha", "beta", "日本"][i % 3].to_string());
+            }
+            if i % 5 == 0 {
+                c.labels.insert(a, vec![format!("L{}", i)]);
+            }
+        }
+        c.labels.insert(4 * n, vec!["End".into()]);
+        let mid = 4 * (n / 2);
+        let script = vec![Op::Deallocate(mid, 8, false), Op::Deallocate(mid, 0, false), Op::Deallocate(0, 4, true), Op::Allocate(mid - 4, 8, false), Op::Allocate(4, 4, true), Op::Deallocate(4 * n - 8, 4, false), Op::Truncate(mid + 40), Op::AllocateAtEnd(4), Op::Deallocate(mid, 4, true)];
+        let sys = Sys { force_orders: false, inits: vec![c.clone()], s_max: usize::MAX, full_depth: 0 };
+        let mut st = St { init: 0, model: c };
+        for k in 0..script.len() {
+            match sys.transition(&st, &script[..k], &script[k]) {
+                Ok((nx, _)) => {
+                    st = nx;
+                    done += 1;
+                }
+                Err((sig, summary, _)) => {
+                    o.violate(format!("many:{}", sig), format!("[{} annotated cells, {:?}, step {}] {}", n, e, k, summary.chars().take(600).collect::<String>()), json!({"many_annotations": n, "endian": format!("{:?}", e), "step": k}));
+                    break;
+                }
+            }
+        }
+    }
+    done
 }
 
 pub fn explore(ctx: &Ctx) -> Outcome {
@@ -650,6 +715,12 @@ pub fn explore(ctx: &Ctx) -> Outcome {
         medium_search(ctx.tier, &mut o, &mut cov);
     }
     let (steps, script) = if hooked { (0, json!([])) } else { large_script(&mut o) };
+    if !hooked {
+        let n = many_annotations_script(&mut o);
+        cov.transitions += n;
+        cov.traces_validated_against_impl += n;
+        cov.extra.insert("many_annotations_script".into(), json!({"archives": [1499, 1500, 1501, 2048, 5000], "steps_conforming": n}));
+    }
     if hooked {
         cov.extra.insert("forced_hash_order_runs".into(), json!(FORCED_RUNS.load(std::sync::atomic::Ordering::Relaxed)));
         cov.extra.insert("hash_iteration_order".into(), json!("owned: every relocation transition is executed under every forced iteration order of each annotation map of the pre-state (all t! for t ≤ 3; ascending, descending and all rotations above), overrides active from the rebuild to the last observation"));
@@ -672,6 +743,11 @@ pub fn explore(ctx: &Ctx) -> Outcome {
 }
 
 pub fn replay(ctx: &Ctx, case: &Value) -> Vec<Violation> {
+    if case.get("many_annotations").is_some() {
+        let mut o = Outcome::default();
+        many_annotations_script(&mut o);
+        return o.violations.into_iter().filter(|v| v.case == *case).collect();
+    }
     if case.get("large_script_step").is_some() {
         let mut o = Outcome::default();
         large_script(&mut o);
